@@ -1,9 +1,17 @@
 #!/bin/bash
-# Offline set-up: build every check binary once (incremental afterwards).
-set -eu
+# Offline set-up: build every check binary once (incremental afterwards; ./check rebuilds what it needs anyway).
+set -u
 ROOT="$(cd "$(dirname "$0")" && pwd)"
 export CARGO_NET_OFFLINE=true
-cd "$ROOT/harness"
+cd "$ROOT/harness" || exit 1
 cp /repo/Cargo.lock .repo.lock; cp /repo/Cargo.lock Cargo.lock
-cargo build --profile verif --offline --bins 2>&1 | tail -3
-mkdir -p "$ROOT/evidence" "$ROOT/replays"
+mkdir -p "$ROOT/evidence" "$ROOT/replays" target
+if ! cargo build --profile verif --offline --bins >target/setup.log 2>&1; then
+  # one broken binary must not keep the others from being built
+  for f in src/bin/c*.rs; do
+    b="$(basename "$f" .rs)"
+    cargo build --profile verif --offline --bin "$b" >>target/setup.log 2>&1 || echo "setup: $b does not build (see harness/target/setup.log)"
+  done
+fi
+tail -2 target/setup.log
+exit 0
